@@ -45,6 +45,21 @@ def Sym.dbgT (t : Table) : Sym → Str
 
 def symInterpT (t : Table) : Interp Sym := { symInterp with dbg := Sym.dbgT t }
 
+def Sym.hasVar : Sym → Bool
+  | .var _ => true
+  | .un _ a => a.hasVar
+  | .bin _ a b => a.hasVar || b.hasVar
+  | _ => false
+
+/-- (binary, unary) operators applied to a variable-dependent operand somewhere in the term -/
+def Sym.opsVar : Sym → List Nat × List Nat
+  | .un k a => (a.opsVar.1, if a.hasVar then k :: a.opsVar.2 else a.opsVar.2)
+  | .bin k a b =>
+    let l := a.opsVar
+    let r := b.opsVar
+    (if a.hasVar || b.hasVar then k :: (l.1 ++ r.1) else l.1 ++ r.1, l.2 ++ r.2)
+  | _ => ([], [])
+
 def Sym.size : Sym → Nat
   | .un _ a => a.size + 1
   | .bin _ a b => a.size + b.size + 1
